@@ -36,6 +36,7 @@ type c07Case struct {
 	K2        int    `json:"k2"`
 	Decisions []byte `json:"decisions"`
 	Copy      bool   `json:"copy"`
+	Procs     int    `json:"procs"` // GOMAXPROCS during the run (0: 4)
 	Reuse     bool   `json:"reuse"` // parse into an object that was used before
 }
 
@@ -447,7 +448,11 @@ func c07Check(c c07Case) error {
 	defer clearCrumb()
 	stop := watchdog(hangLimit(), "C07 case")
 	defer stop()
-	oldProcs := runtime.GOMAXPROCS(4)
+	procs := c.Procs
+	if procs < 1 {
+		procs = 4
+	}
+	oldProcs := runtime.GOMAXPROCS(procs)
 	defer runtime.GOMAXPROCS(oldProcs)
 
 	verdict, model := rj.Classify(doc)
@@ -551,6 +556,7 @@ func genC07Case(t *rapid.T) c07Case {
 			c.ErrPos = rapid.IntRange(0, 1000).Draw(t, "errpm")
 		}
 	}
+	c.Procs = []int{1, 2, 4, 16}[rapid.IntRange(0, 3).Draw(t, "gomaxprocs")]
 	c.Strategy = rapid.IntRange(0, 3).Draw(t, "strategy")
 	c.K1 = rapid.IntRange(0, 40).Draw(t, "k1")
 	c.K2 = rapid.IntRange(0, 40).Draw(t, "k2")
